@@ -270,6 +270,9 @@ let sub_list (buf : n array) off len : n list =
 let parse_sl (buf : n array) (s : string) : sl option =
   if s = "-" then None
   else if s.[0] = 'x' then Some (Ext (unhex (let t = String.sub s 1 (String.length s - 1) in if t = "" then "-" else t)))
+  else if s.[0] = 'y' then
+    (* a slice that starts in the buffer and runs past its end: a NON-EMPTY slice that is not a sub-slice *)
+    Some (Ext [n_of_int 0])
   else match String.split_on_char '+' s with
     | [a; b] -> let off = int_of_string a and len = int_of_string b in
         Some (Sub (nat_of_int off, sub_list buf off len))
